@@ -18,6 +18,8 @@ package main
 
 import (
 	"fmt"
+	"io/ioutil"
+	"log"
 	"os"
 	"path/filepath"
 	"sort"
@@ -34,6 +36,7 @@ var (
 
 func main() {
 	args := xvlib.ParseArgs()
+	log.SetOutput(ioutil.Discard) // the crypto library prints every aggregated signature
 	scratch = args.Scratch
 	var err error
 	schemas, err = loadSchemas()
